@@ -335,3 +335,7 @@ func LeadingZerosOK(name string, b []byte) bool {
 	cur.retries++
 	return cur.retries > 300000 // give up eventually: the replay will simply not reproduce
 }
+
+// NativeRetries: how often a harness repeats an experiment whose outcome depends on the Go runtime's
+// unspecified choices (map iteration order): n natively, once symbolically (all orders are explored there).
+func NativeRetries(n int) int { return n }
